@@ -28,10 +28,10 @@ func init() {
 				Blocks:     16,
 				Procs:      16,
 				Exhaustive: true,
-				Rule: "exhaustive part (seed-independent): a 6-entry unit-size cache over 7 keys is filled, then EVERY sequence of 4 (5 thorough) operations from {Get, Remove, Put} x 7 keys is applied, then six fresh keys evict everything and the eviction order is compared; random part: case = (limit 1..40, unit sizes or a size function with sizes 0..limit+2, 2..40 keys, history of 80-600 Put/Get/Has/Remove/Clear with Remove-then-Get/Remove/Put bursts). After EVERY call: the result, Len, Size (== sum of sizes, <= limit), Has for every key, the exact eviction-callback multiset of that call with evictions in exact LRU order (order of Clear's callbacks and the position of the replaced entry's callback unconstrained), and the accounting/LRU-index hook. " +
+				Rule: "exhaustive part (seed-independent): a 6-entry unit-size cache over 7 keys is filled, then EVERY sequence of 4 (5 thorough) operations from {Get, Remove, Put} x 7 keys is applied, then six fresh keys evict everything and the eviction order is compared; random part: case = (limit 1..40, unit sizes or a size function with sizes 0..limit+2, 2..40 keys, history of 80-600 Put/Get/Has/Remove/Clear with Remove-then-Get/Remove/Put bursts; one history in five runs on a cache configured WITHOUT the optional eviction callback, where evictions are observed through the results only). After EVERY call: the result, Len, Size (== sum of sizes, <= limit), Has for every key, the exact eviction-callback multiset of that call with evictions in exact LRU order (order of Clear's callbacks and the position of the replaced entry's callback unconstrained), and the accounting/LRU-index hook. " +
 					"Every history is executed as is and with the F1 counterfactual switch; a real-run violation is attributed to F1 iff it vanishes in the counterfactual run, every parent index seen was i/2 or (i-1)/2, and the cache had held >= 5 entries; a violation in a counterfactual run is a VIOLATION. " +
 					"distinct = hash(config, ops); non-trivial = the history evicted at least once and performed an access or removal after a Remove",
-				Required:     []string{"exhaustive_small_histories", "histories", "histories_ge6_entries", "evictions", "remove_then_access", "zero_size_puts", "too_large_puts", "replacing_puts", "clears", "hook_checks", "sparse_observation_runs"},
+				Required:     []string{"exhaustive_small_histories", "histories", "histories_ge6_entries", "evictions", "remove_then_access", "zero_size_puts", "too_large_puts", "replacing_puts", "clears", "hook_checks", "sparse_observation_runs", "runs_without_evict_callback"},
 				Assumptions:  []string{"reference model: recency list; Put and successful Get count as uses, Has does not", "known finding F1 is excused only through the counterfactual switch in heapq/verif_on.go and only when >= 5 entries were held"},
 				CoverPkgs:    []string{"github.com/creachadair/mds/cache", "github.com/creachadair/mds/heapq"},
 				CoverAnchors: []string{"cache/cache.go", "cache/lru.go", "heapq/heapq.go:pop", "heapq/heapq.go:Remove", "heapq/heapq.go:Pop", "heapq/heapq.go:Add", "heapq/heapq.go:pushUp", "heapq/heapq.go:pushDown", "heapq/heapq.go:swap"},
@@ -75,6 +75,9 @@ type c08cfg struct {
 	Limit int64 `json:"limit"`
 	Unit  bool  `json:"unit_sizes"`
 	Keys  int   `json:"keys"`
+	// NoCallback: the cache is configured without OnEvict (an optional
+	// feature left out); evictions are then observed through Has/Len/Size only.
+	NoCallback bool `json:"no_evict_callback,omitempty"`
 }
 
 type c08stats struct {
@@ -102,7 +105,12 @@ func c08run(c *fw.Ctx, cfg c08cfg, ops []cop, fixParent bool) (div *heapDiv, st 
 	defer func() { st.odd = heapq.VerifOddParent.Load() - odd0 }()
 
 	var calls []lruEntry
-	conf := cache.LRU[int, CVal]().OnEvict(func(k int, v CVal) { calls = append(calls, lruEntry{k, v}) })
+	conf := cache.LRU[int, CVal]()
+	if !cfg.NoCallback {
+		conf = conf.OnEvict(func(k int, v CVal) { calls = append(calls, lruEntry{k, v}) })
+	} else {
+		c.Add("runs_without_evict_callback", 1)
+	}
 	if !cfg.Unit {
 		conf = conf.WithSize(func(v CVal) int64 { return v.Sz })
 	}
@@ -180,6 +188,9 @@ func c08run(c *fw.Ctx, cfg c08cfg, ops []cop, fixParent bool) (div *heapDiv, st 
 		}
 		lastWasRemove = o.Op == 'R'
 		// callbacks of this call
+		if cfg.NoCallback {
+			wantCalls, wantEvict = nil, nil
+		}
 		if len(calls) != len(wantCalls) {
 			return fail("%v: eviction callback fired %d times %v, want %d %v", o, len(calls), calls, len(wantCalls), wantCalls), st
 		}
@@ -236,6 +247,9 @@ func c08run(c *fw.Ctx, cfg c08cfg, ops []cop, fixParent bool) (div *heapDiv, st 
 	calls = calls[:0]
 	ch.Clear()
 	want := ref.clear()
+	if cfg.NoCallback {
+		want = nil
+	}
 	a := append([]lruEntry(nil), calls...)
 	sortEntries(a)
 	sortEntries(want)
@@ -509,6 +523,7 @@ func runC08(c *fw.Ctx) {
 		}
 		r := c.Rng()
 		cfg := c08cfg{Limit: int64(1 + r.IntN(40)), Unit: r.IntN(2) == 0, Keys: 2 + r.IntN(39)}
+		cfg.NoCallback = k%5 == 3
 		if k%7 == 0 { // small caches: no allowance for F1 whatever
 			cfg.Limit = int64(1 + r.IntN(4))
 			cfg.Unit = true
